@@ -132,6 +132,8 @@ def run_impl(case):
     from bluebonnet.flow.flowproperties import FlowPropertiesSimple
     out = {}
     t = np.array(case["times"], float)     # the caller's own array (a copy of the case's: checks compare it with the case afterwards)
+    if case.get("time_dtype"):
+        t = t.astype(case["time_dtype"])       # day counts held as integers, float32 from a file
     out["time_arg"] = t
     # the node count as the caller holds it: a Python int, or a (narrow) NumPy integer scalar taken from an array / a table column
     nx_arg = np.dtype(case["nx_type"]).type(case["nx"]) if case.get("nx_type") else case["nx"]
@@ -169,6 +171,11 @@ def run_impl(case):
                     res.simulate(np.linspace(0.0, 0.3, 5))
                     res.recovery_factor()
                     res.nx, res.pressure_fracface, res.pressure_initial, res.fluid = nx_arg, pf0, case["pi"], fp
+                elif case.get("two_phase_sw") is not None and sched is None:
+                    # the oil-gas class shares the single-phase time stepping; built with its documented positional signature
+                    # (nx, pressure_fracface, pressure_initial, fluid, Sw_init) it must solve the same problem
+                    from bluebonnet.flow import TwoPhaseReservoir
+                    res = TwoPhaseReservoir(nx_arg, pf0, case["pi"], fp, case["two_phase_sw"])
                 else:
                     res = SinglePhaseReservoir(nx_arg, pf0, case["pi"], fp)
                 if sched is None:
@@ -409,11 +416,19 @@ def gen_cases(rng, n, quick=True, kinds=("single", "ideal"), nx_choices=None, nt
             case["nx_type"] = nx_type
         if k % 7 == 5:
             case["reassign"] = True
+        if k % 9 == 4:
+            case["two_phase_sw"] = [0.25, 0.1, 1e-3][(k // 9) % 3]
         if k % 8 in (2, 6) and k % 16 != 2:
             case["reverse_rows"] = True
         if rng.random() < sched_prob:
-            style = rng.choice(["stepdown", "random", "constant"])
-            if style == "stepdown":
+            style = rng.choice(["stepdown", "random", "constant", "shut-in"])
+            if style == "shut-in":
+                # drawdown, then the well is shut in: the frac-face pressure is back AT the initial pressure for a while (the depleted
+                # region recharges from the interior), then drawdown again
+                sched = rng.uniform(pf, pi, nt)
+                a_, b_ = sorted(rng.choice(np.arange(1, nt), 2, replace=False)) if nt > 3 else (1, 2)
+                sched[a_:b_ + 1] = pi
+            elif style == "stepdown":
                 sched = np.sort(rng.uniform(pf, pi, nt))[::-1].copy()
             elif style == "random":
                 sched = rng.uniform(pf, pi, nt)
